@@ -144,11 +144,16 @@ mod builtins {
     /// {{ 42 is divisibleby(2) }} -> true
     /// ```
     #[cfg_attr(docsrs, doc(cfg(feature = "builtins")))]
-    pub fn is_divisibleby(v: &Value, other: &Value) -> bool {
+    pub fn is_divisibleby(v: &Value, other: &Value) -> Result<bool, Error> {
         match coerce(v, other, false) {
-            Some(CoerceResult::I128(a, b)) => (a % b) == 0,
-            Some(CoerceResult::F64(a, b)) => (a % b) == 0.0,
-            _ => false,
+            Some(CoerceResult::I128(_, 0)) => Err(Error::new(
+                crate::error::ErrorKind::InvalidOperation,
+                "cannot test divisibility by zero",
+            )),
+            // `i128::MIN % -1` overflows although the remainder is 0
+            Some(CoerceResult::I128(a, b)) => Ok(a.wrapping_rem(b) == 0),
+            Some(CoerceResult::F64(a, b)) => Ok((a % b) == 0.0),
+            _ => Ok(false),
         }
     }
 
